@@ -655,7 +655,18 @@ def line_of(via, op, ref):
     """protocol line for the Lean model; wrong-typed arguments become the `xx` (malformed) op"""
     k = op[0]
     if k in ('sci', 'nz'):
-        return None          # no model operation: the Lean model is re-loaded from the reference after the call
+        # `Bqm.vScaleIgnoring` / `Bqm.vNormalize` (DimodModel/BqmScaleIgn.lean): the ignored containers as lists
+        iv, ii, io = op[-5:-2]
+        try:
+            ivt = 'N' if iv is None else (','.join(_lab(x) for x in iv) or '-')
+            iit = 'N' if ii is None else (','.join(f'{_lab(a)}~{_lab(b)}' for a, b in ii) or '-')
+        except (TypeError, ValueError):
+            return None
+        if k == 'sci':
+            return f'{via} sci {rat(op[1])} {ivt} {iit} {int(bool(io))}'
+        par = lambda rr: rr if isinstance(rr, tuple) else (-abs(rr), abs(rr))
+        lr, qr = par(op[1]), par(op[2] if op[2] is not None else op[1])
+        return f'{via} nz {rat(lr[0])} {rat(lr[1])} {rat(qr[0])} {rat(qr[1])} {ivt} {iit} {int(bool(io))}'
     def body():
         if k in ('al', 'sl'):
             return f'{k} {olab(op[1])} {rat(op[2])}'
